@@ -182,7 +182,7 @@ func TestVerif_C52(t *testing.T) {
 		"0", "0K", "-1", "1P", "K", "8388608T", "1.5K",
 	}
 	counts := []int{0, 1, 2, 3, 7, 10, 99, 1000}
-	reps := kit.Pick(3, 25)
+	reps := kit.Pick(2, 25)
 	subsetRecs := 0
 	for _, cnt := range counts {
 		for _, class := range []string{"uniform", "tiny", "mixed"} {
@@ -197,6 +197,9 @@ func TestVerif_C52(t *testing.T) {
 				r := reps
 				if cnt == 1000 {
 					r = 1 + reps/8
+					if !kit.Thorough() && flag != "0.0001%" && flag != "2.5%" && flag != "100%" && flag != "1" && flag != "50M" && flag != "10G" {
+						continue
+					}
 				}
 				for k := 0; k < r; k++ {
 					acc, m, e := vc52Apply(flag, ps.copyPacks())
